@@ -777,6 +777,60 @@ def run_power(cfg):
     return {'evals': evals, 'viol': _viol(site, first), 'sig': sorted(sigs), 'skipped': skipped}
 
 
+
+WV = [-0.5, 0.25, 2.0]          # multiplicand alphabet (|w| < 1 and > 1)
+
+
+def run_power_ref(cfg):
+    """Operators that REFER to an element (MultiplyOperator(w), A * MultiplyOperator(w)) started
+    at that very element: the documented contract ('copy to ensure xstart is not modified' /
+    xstart : element-like starting point) makes the call read-only on xstart, so the operator
+    is the same before and after and the estimate is bounded by its norm."""
+    from odl.operator.oputils import power_method_opnorm
+    name = cfg['space']
+    sp = _xspace(name) if name in XSPACES else S.build(name)
+    n = S.flat_size(sp)
+    wx = S.weights(sp)
+    site = 'power_method_opnorm[%s,xstart=own-multiplicand,%s]' % (
+        cfg['op'], 'unweighted' if np.all(wx == 1) else 'weighted')
+    first, evals, sigs = {}, 0, set()
+    for wv in itertools.product(WV, repeat=n):
+        wv = np.array(wv)
+        for mi in (2, 4, 10, 20):
+            w_el = S.from_flat(sp, wv.copy())
+            mult = odl.MultiplyOperator(w_el, domain=sp, range=sp)
+            if cfg['op'] == 'MultiplyOperator':
+                op = mult
+                Amat = np.diag(wv)
+                wy = wx
+            else:
+                _, nn, wk = XSPACES[name]
+                B = np.array(MATS['M'][nn])
+                Bop = _matop(B, wk, 'ref' if wk == 'wa' else 'odl', dom=sp)
+                op = Bop * mult
+                Amat = B.dot(np.diag(wv))
+                wy = S.weights(Bop.range)
+            true = R.opnorm(Amat, wx, wy)       # norm of the operator that is passed in
+            try:
+                est = power_method_opnorm(op, xstart=w_el, maxiter=mi)
+            except Exception as e:
+                _first(first, 'raises:' + type(e).__name__, 'w=%s maxiter=%d: %r' % (
+                    wv.tolist(), mi, e))
+                continue
+            evals += 1
+            after = S.to_flat(w_el)
+            if not np.array_equal(after, wv):
+                _first(first, 'xstart_modified',
+                       'w=%s maxiter=%d: xstart (the multiplicand of the operator) after the '
+                       'call: %s' % (wv.tolist(), mi, after.tolist()))
+            if not est <= true * (1 + 1e-12):
+                _first(first, 'estimate_exceeds_norm',
+                       '%s with multiplicand w=%s on %s, xstart=w (the same element) maxiter=%d: '
+                       'estimate %r > true norm %r' % (cfg['op'], wv.tolist(), name, mi, est,
+                                                       true))
+            sigs.add('pmref:%s:%s' % (cfg['op'], est >= true * (1 - 1e-3)))
+    return {'evals': evals, 'viol': _viol(site, first), 'sig': sorted(sigs)}
+
 # ----------------------------------------------------------------------------------------------
 # (b) non-smooth solvers: problem pool built backwards from a primal-dual pair
 
@@ -823,6 +877,10 @@ def _mk_L(kind, X, xname):
         return odl.Gradient(X)
     if kind == 'grad_sym':
         return odl.Gradient(X, pad_mode='symmetric')
+    if kind == 'pderiv':            # domain == range; its in-place evaluation is not alias-safe
+        return odl.PartialDerivative(X, axis=0, method='forward', pad_mode='constant')
+    if kind == 'pderiv_b':
+        return odl.PartialDerivative(X, axis=0, method='backward', pad_mode='constant')
     if kind in MATS:
         _, n, wk = XSPACES[xname]
         A = np.array(MATS[kind][n])
@@ -1066,6 +1124,14 @@ FAMS = {
     # TV denoising (ROF) in 1d: ||x - a||^2 + ||grad x||_1 on uniform_discr (cell-volume weights)
     'rof1d': dict(X=['ud4', 'ud3'], f=('l2sq', 1.0), absorb='f_shift',
                   blocks=[('l1', 0.25, 'grad', 'nat')], xv=XV, solvers=PD4),
+    # 1d TV with L = PartialDerivative: an operator with domain == range (a solver that shares a
+    # temporary between both sides calls it aliased, which finite differences do not survive)
+    'rof_pd': dict(X=['ud4', 'ud3'], f=('l2sq', 1.0), absorb='f_shift',
+                   blocks=[('l1', 0.25, 'pderiv', 'nat')], xv=XV, solvers=PD4),
+    # forward and backward differences: two such operators with EQUAL ranges
+    'rof_pd2': dict(X=['ud3'], f=('l2sq', 1.0), absorb='f_shift',
+                    blocks=[('l1', 0.25, 'pderiv', 'nat'), ('l1', 0.125, 'pderiv_b', 'pat')],
+                    xv=XV, solvers=PD4),
     # the same with Neumann boundary (kernel = constants) and a shifted difference target
     'rof1d_sym': dict(X=['ud4'], f=('l2sq', 1.0), absorb='f_shift',
                       blocks=[('l1', 0.25, 'grad_sym', 'nat')], xv=XV, solvers=PD4),
@@ -1629,6 +1695,10 @@ def configs(tier):
                 for ill in (0, 1):
                     cfgs.append({'kind': 'power', 'pool': 'rect', 'shape': shape, 'mat': t,
                                  'ill': ill, 'w': wk, 'arm': 'normal', 'deep': int(thorough)})
+    for spn in ('rn3', 'rn3w2', 'rn3wa', 'ud3', 'rn2'):
+        cfgs.append({'kind': 'power_ref', 'space': spn, 'op': 'MultiplyOperator'})
+        if spn in XSPACES and XSPACES[spn][0] == 'rn':
+            cfgs.append({'kind': 'power_ref', 'space': spn, 'op': 'OperatorComp'})
     # ---- (b) non-smooth solvers (per family simplest first; the families are then interleaved
     # round-robin so that the expensive members are spread over the work shards)
     per_fam = []
@@ -1666,7 +1736,7 @@ def configs(tier):
     return cfgs
 
 
-_RUN = {'cg': run_cg, 'cgn': run_cgn, 'landweber': run_landweber, 'kaczmarz': run_kaczmarz,
+_RUN = {'power_ref': run_power_ref, 'cg': run_cg, 'cgn': run_cgn, 'landweber': run_landweber, 'kaczmarz': run_kaczmarz,
         'smooth': run_smooth, 'linesearch': run_linesearch, 'power': run_power, 'ns': run_ns}
 
 
@@ -1745,6 +1815,11 @@ def meta(tier):
                      '3x3 over {-1,0,1}' if thorough else
                      'canonical full rank 2x2 over {-1,0,1,2}, 3x2 2x3 over {-1,0,1}, 33 3x3') +
                     '; ill = first row * 2^-6; other weightings on the {-1,0,1} sub-pool',
+            'scaled_instances': 'cg / cgn / landweber: rhs * 2^-17 and * 2^-30 with zero start, warm '
+                                'starts x* + 2^-20 e_k (tolerances relative to the instance)',
+            'power_method_self_reference': 'MultiplyOperator(w) and M * MultiplyOperator(w), w in '
+                                           '{-1/2, 1/4, 2}^n, started at the element w itself; '
+                                           'xstart must be bit-identical afterwards',
             'cg_iterations': 'n + 2', 'cgn_iterations': 'n + 2', 'landweber_iterations': 8,
             'kaczmarz_sweeps': 3,
             'landweber_omega*|A|^2': LW_OMEGA + ['default'],
